@@ -26,6 +26,9 @@ const (
 	SessionSMSPendingPID = "sms_pending"
 )
 
+// SessionSMSSecretPID is the user the code in SessionSMSSecret was sent for
+const SessionSMSSecretPID = "sms_secret_pid"
+
 // Form value constants
 const (
 	FormValueCode        = "code"
@@ -174,6 +177,7 @@ func (s *SMS) HijackAuth(w http.ResponseWriter, r *http.Request, handled bool) (
 		// it must not be able to complete this user's login.
 		if prevPID != user.GetPID() {
 			authboss.DelSession(w, SessionSMSSecret)
+			authboss.DelSession(w, SessionSMSSecretPID)
 		}
 	} else if err != nil {
 		return false, err
@@ -220,6 +224,7 @@ func (s *SMS) SendCodeToUser(w http.ResponseWriter, r *http.Request, pid, number
 
 	authboss.PutSession(w, SessionSMSLast, strconv.FormatInt(time.Now().UTC().Unix(), 10))
 	authboss.PutSession(w, SessionSMSSecret, code)
+	authboss.PutSession(w, SessionSMSSecretPID, pid)
 
 	logger.Infof("sending sms for %s to %s", pid, number)
 	if err := s.Sender.Send(r.Context(), number, code); err != nil {
@@ -247,6 +252,7 @@ func (s *SMS) GetSetup(w http.ResponseWriter, r *http.Request) error {
 	}
 
 	authboss.DelSession(w, SessionSMSSecret)
+	authboss.DelSession(w, SessionSMSSecretPID)
 	authboss.DelSession(w, SessionSMSNumber)
 
 	return s.Core.Responder.Respond(w, r, http.StatusOK, PageSMSSetup, data)
@@ -401,6 +407,13 @@ func (s *SMSValidator) validateCode(w http.ResponseWriter, r *http.Request, user
 		}
 
 		verified = 1 == subtle.ConstantTimeCompare([]byte(inputCode), []byte(code))
+
+		// The code only proves something about the user it was sent for: a
+		// session can come to act for another user (eg. a remember cookie
+		// authenticating in the middle of someone else's pending login).
+		if forPID, ok := authboss.GetSession(r, SessionSMSSecretPID); ok && forPID != user.GetPID() {
+			verified = false
+		}
 	}
 
 	if !verified {
@@ -447,6 +460,7 @@ func (s *SMSValidator) validateCode(w http.ResponseWriter, r *http.Request, user
 
 		authboss.DelSession(w, authboss.Session2FAAuthed)
 		authboss.DelSession(w, SessionSMSSecret)
+		authboss.DelSession(w, SessionSMSSecretPID)
 		authboss.DelSession(w, SessionSMSNumber)
 
 		logger.Infof("user %s enabled sms 2fa", user.GetPID())
@@ -493,6 +507,7 @@ func (s *SMSValidator) validateCode(w http.ResponseWriter, r *http.Request, user
 		authboss.DelSession(w, authboss.SessionHalfAuthKey)
 		authboss.DelSession(w, SessionSMSPendingPID)
 		authboss.DelSession(w, SessionSMSSecret)
+		authboss.DelSession(w, SessionSMSSecretPID)
 
 		logger.Infof("user %s sms 2fa success", user.GetPID())
 
